@@ -343,6 +343,9 @@ func pnftOps(e *pnftEnv, v pnftVariant) []explore.Op {
 		txOp("TransferDenom(d,A->B)", s(A), pnfttypes.NewMsgTransferRequest("d", A.Bech, B.Bech)),
 		txOp("TransferDenom(d,B->C)", s(B), pnfttypes.NewMsgTransferRequest("d", B.Bech, C.Bech)),
 		txOp("TransferDenom(d,C->A)", s(C), pnfttypes.NewMsgTransferRequest("d", C.Bech, A.Bech)),
+		// transfers to oneself: owner and listings stay exactly as they were
+		txOp("TransferDenom(d,A->A)", s(A), pnfttypes.NewMsgTransferRequest("d", A.Bech, A.Bech)),
+		txOp("TransferPNFT(d,t,A->A)", s(A), pnfttypes.NewMsgTransferPNFTRequest("d", "t", A.Bech, A.Bech)),
 		mint("d", "t", A), mint("d", "t", B), mint("d", "tt", A), mint("dd", "t", A), mint("d", "t", C),
 		txOp("TransferPNFT(d,t,A->B)", s(A), pnfttypes.NewMsgTransferPNFTRequest("d", "t", A.Bech, B.Bech)),
 		txOp("TransferPNFT(d,t,B->C)", s(B), pnfttypes.NewMsgTransferPNFTRequest("d", "t", B.Bech, C.Bech)),
